@@ -1,5 +1,5 @@
 import GV.Proofs.CborBytes
-import GV.Proofs.Offsets
+import GV.Proofs.CborSpans
 /-!
   `children_tile`: the link between `childSpans` and `wfItem` of the whole container:
   header + children (+ break byte) tile the item exactly.
